@@ -7,6 +7,7 @@ import (
 	"net"
 	"os"
 	"sync"
+	"sync/atomic"
 	"time"
 
 	internal "github.com/influxdata/influxdb/services/meta/internal"
@@ -33,6 +34,10 @@ type store struct {
 	path        string
 	opened      bool
 	logger      *zap.Logger
+
+	// openingRaft is set while openRaft runs: raft restores its newest
+	// snapshot from inside NewRaft, on the goroutine that holds mu.
+	openingRaft atomic.Bool
 
 	raftAddr string
 	httpAddr string
@@ -133,6 +138,8 @@ func (s *store) peers() []string {
 func (s *store) openRaft(raftln net.Listener) error {
 	s.mu.Lock()
 	defer s.mu.Unlock()
+	s.openingRaft.Store(true)
+	defer s.openingRaft.Store(false)
 	rs := newRaftState(s.config, s.raftAddr)
 	rs.logger = s.logger
 	rs.path = s.path
